@@ -108,6 +108,9 @@ def showHdr (h : Hdr) : String :=
 /-- a stored header: identity, link, digest of the remaining fields, the rule fields -/
 def showStored (f : FHdr) : String := s!"{f.hash}:{f.prevHash}:{f.rest}:{showHdr f.h}"
 
+/-- `Options` as its bits (`0` NONE, `1` SKIP_POW, `2` SYNC, `4` MINE, sums for unions) -/
+def opts? (s : String) : Option Opts := (nat? s).map Opts.mk
+
 def getNode (st : St) (id : String) : Option HNode := (st.nodes.find? (·.1 == id)).map (·.2)
 
 def setNode (st : St) (id : String) (n : HNode) : St :=
@@ -135,19 +138,19 @@ def handleNode (st : St) (id : String) (args : List String) (impl : String) : St
   | none => (st, .unknown)
   | some n =>
   match args with
-  | ["sync", skip, sh, batch] => match bool? skip, tip? sh, listOf fhdr? batch with
+  | ["sync", skip, sh, batch] => match opts? skip, tip? sh, listOf fhdr? batch with
     | some skip, some sh, some batch =>
       match processBlockHeaders n skip sh batch with
       | .ok (n', r) => (setNode st id n', cmpAccept (if r then "ok:some" else "ok:none") impl)
       | .error e => (st, cmpAccept e.name impl)
     | _, _, _ => (st, .unknown)
-  | ["pbh", skip, f] => match bool? skip, fhdr? f with
+  | ["pbh", skip, f] => match opts? skip, fhdr? f with
     | some skip, some f =>
       match nodeProcessBlockHeader n skip f with
       | .ok n' => (setNode st id n', cmpAccept "ok" impl)
       | .error e => (st, cmpAccept e.name impl)
     | _, _ => (st, .unknown)
-  | ["pb", skip, bok, f] => match bool? skip, bool? bok, fhdr? f with
+  | ["pb", skip, bok, f] => match opts? skip, bool? bok, fhdr? f with
     | some skip, some bok, some f =>
       let (n', r) := nodeProcessBlock n skip f bok
       (setNode st id n', cmpAccept (showExc NErr.name r) impl)
